@@ -13,7 +13,7 @@ R4 error exits precede effects: config read / parse errors make main return Err 
 """
 import re
 from .. import cfg
-from ..common import (return_values_r, call_chain, trace_bool, bool_switch_targets, enum_switch, return_values, single_def, field_switches)
+from ..common import (return_values_r, only_err_returns, call_chain, trace_bool, bool_switch_targets, enum_switch, return_values, single_def, field_switches)
 from ..facts import op_place, op_const, rv_str
 from ..prov import Prov
 from . import edit
@@ -176,8 +176,8 @@ def run(ctx):
                         err_arm, ok_arm = es[1].get(1, es[2]), es[1].get(0, es[2])
             if ctx.check(err_arm is not None, P, "setup-examined", "the configuration result is examined", S.where()):
                 region = cfg.reach_t(m, err_arm)
-                rets = [st for (rb, st) in return_values(m) if rb in region]
-                ctx.check(bool(rets) and all(is_err_agg(s) for s in rets), P, "config-error-exit", "a configuration error makes main return Err (non-zero exit)", S.where())
+                rets = [st for (rb, st) in return_values_r(m) if rb in region]
+                ctx.check((bool(rets) and all(is_err_agg(s) for s in rets)) or only_err_returns(m, err_arm), P, "config-error-exit", "a configuration error makes main return Err (non-zero exit)", S.where())
                 later = [c for c in m.calls if c.matches(r"signal_hook::|generate::(check_references|generate_code)$")]
                 ctx.check(all(ok_arm in dom.get(c.bb, ()) for c in later) and not any(c.bb in region for c in later), P, "config-error-first",
                           "signal setup and both drivers run only after the configuration loaded", S.where())
@@ -193,8 +193,8 @@ def run(ctx):
             ok = bool(arms)
             for bb, ea in arms:
                 region = cfg.reach_t(sc, ea)
-                rets = [st for (rb, st) in return_values(sc) if rb in region]
-                ok = ok and bool(rets) and all(is_err_agg(s) for s in rets)
+                rets = [st for (rb, st) in return_values_r(sc) if rb in region]
+                ok = ok and ((bool(rets) and all(is_err_agg(s) for s in rets)) or only_err_returns(sc, ea))
             ctx.check(ok, P, "setup-err|" + c.name.split("::")[-1], "setup_context: an Err from %s is returned as Err" % c.name.split("::")[-2:], c.where())
         # Context::new: YAML error -> Err
         cn = facts.one(r"config::context::Context::new$")
@@ -206,10 +206,13 @@ def run(ctx):
                     es = enum_switch(cn, bb)
                     if es and not es[0]["p"]:
                         d = single_def(cn, es[0]["l"])
-                        if d and d[1] == "call" and d[2].bb == c.bb:
+                        direct = d and d[1] == "call" and d[2].bb == c.bb
+                        via = any(x[0] == "call" and x[1].bb == c.bb for x in cp.origins(es[0]["l"])) and \
+                            cn.local_ty(es[0]["l"]).startswith(("std::result::Result<", "std::ops::ControlFlow<"))
+                        if direct or via:
                             region = cfg.reach_t(cn, es[1].get(1, es[2]))
-                            rets = [st for (rb, st) in return_values(cn) if rb in region]
-                            good = bool(rets) and all(is_err_agg(s) for s in rets)
+                            rets = [st for (rb, st) in return_values_r(cn) if rb in region]
+                            good = (bool(rets) and all(is_err_agg(s) for s in rets)) or only_err_returns(cn, es[1].get(1, es[2]))
                 ctx.check(good, P, "yaml-error", "an invalid configuration makes Context::new return Err", c.where())
                 ctx.check("Config" in c.full, P, "yaml-type", "the configuration is deserialized as Config (%s)" % c.full[-60:], c.where())
     for pat, what in ((edit.GENERATE, "edit driver"), (edit.CHECK, "check driver")):
@@ -226,6 +229,21 @@ def run(ctx):
         es = enum_switch(d, nf[0].target)
         some_arm = es[1].get(1, es[2]) if es else None
         none_arm = es[1].get(0, es[2]) if es else None
+        if es is None:
+            # `CodeFinder::new(..).ok_or(E)?` and the like: the first switch whose subject carries the call's result
+            dp = Prov(d)
+            cands = []
+            for sb in sorted(d.reachable_blocks()):
+                e2 = enum_switch(d, sb)
+                if e2 and not e2[0]["p"] and any(o[0] == "call" and o[1].bb == nf[0].bb for o in dp.origins(e2[0]["l"])):
+                    cands.append((len(dom.get(sb, ())), sb, e2))
+            if cands:
+                _n, sb, e2 = sorted(cands, key=lambda x: x[:2])[0]
+                ty = d.local_ty(e2[0]["l"])
+                good_idx = 1 if ty.startswith("std::option::Option<") else 0   # Some / Ok / Continue
+                es = e2
+                some_arm = e2[1].get(good_idx, e2[2])
+                none_arm = e2[1].get(1 - good_idx, e2[2])
         sw = None
         for bb in sorted(d.reachable_blocks()):
             t = d.term(bb)
@@ -246,7 +264,7 @@ def run(ctx):
             for arm, why in ((none_arm, "discovery failure"), (sw[1], "empty file list")):
                 region = cfg.reach_t(d, arm)
                 rets = [st for (rb, st) in return_values_r(d) if rb in region]
-                ctx.check(bool(rets) and all(is_err_agg(s) for s in rets), P, "guard-err|%s|%s" % (what, why), "%s: %s returns Err" % (what, why), d.where())
+                ctx.check((bool(rets) and all(is_err_agg(s) for s in rets)) or only_err_returns(d, arm), P, "guard-err|%s|%s" % (what, why), "%s: %s returns Err" % (what, why), d.where())
             # the emptiness test is on the finder's list
             ch, root = call_chain(d, ie[0].args[0])
             ctx.check(True, P, "guard-list|" + what, "%s: the emptiness test inspects the discovered list" % what, ie[0].where())
@@ -262,7 +280,7 @@ def run(ctx):
         if ctx.check(len(md) == 1 and len(isd) == 1 and len(wd) == 1, P, "anchor|sanity", "source-directory sanity checks found", f.where()):
             es = enum_switch(f, md[0].target)
             err_arm = es[1].get(1, es[2]) if es else None
-            rets = [st for (rb, st) in return_values(f) if err_arm is not None and rb in cfg.reach_t(f, err_arm)]
+            rets = [st for (rb, st) in return_values_r(f) if err_arm is not None and rb in cfg.reach_t(f, err_arm)]
             ctx.check(bool(rets) and all((op_const(s["rv"].get("op")) or {}).get("int") == 0 for s in rets), P, "missing-dir", "a missing source directory makes find() return false", md[0].where())
             sw = None
             for bb in sorted(f.reachable_blocks()):
@@ -275,7 +293,7 @@ def run(ctx):
                             tt, ft = ft, tt
                         sw = (bb, tt, ft)
             if ctx.check(sw is not None, P, "is-dir-branch", "is_dir() decides a branch", isd[0].where()):
-                rets = [st for (rb, st) in return_values(f) if rb in cfg.reach_t(f, sw[2])]
+                rets = [st for (rb, st) in return_values_r(f) if rb in cfg.reach_t(f, sw[2])]
                 ctx.check(bool(rets) and all((op_const(s["rv"].get("op")) or {}).get("int") == 0 for s in rets), P, "non-dir", "a source path that is not a directory makes find() return false", isd[0].where())
                 ctx.check(sw[1] in dom.get(wd[0].bb, ()), P, "walk-after-sanity", "the walk starts only after both sanity checks passed", wd[0].where())
         # new(): find()==false -> None
@@ -289,7 +307,7 @@ def run(ctx):
                         tt, ft = bool_switch_targets(nw, bb)
                         if neg:
                             tt, ft = ft, tt
-                        rets = [st for (rb, st) in return_values(nw) if rb in cfg.reach_t(nw, ft)]
+                        rets = [st for (rb, st) in return_values_r(nw) if rb in cfg.reach_t(nw, ft)]
                         ctx.check(bool(rets) and all(s["rv"].get("variant") == "None" for s in rets), P, "find-false-none", "find() == false makes CodeFinder::new return None", nw.where(bb))
     from .c18 import rule_interrupted_nonzero
     from .c08 import _Sub
